@@ -386,8 +386,12 @@ func (dr *dirRepo) blobCreate(locked bool, opts ...BlobOpt) (BlobCreator, string
 		if err := conf.expect.Validate(); err != nil {
 			return nil, "", fmt.Errorf("invalid digest: %s: %w", string(conf.expect), err)
 		}
-		_, err := os.Stat(filepath.Join(dr.path, blobsDir, conf.expect.Algorithm().String(), conf.expect.Encoded()))
+		blobName := filepath.Join(dr.path, blobsDir, conf.expect.Algorithm().String(), conf.expect.Encoded())
+		_, err := os.Stat(blobName)
 		if err == nil {
+			// the push is acknowledged without a new copy, the existing one counts as uploaded now for the GC grace period
+			now := time.Now()
+			_ = os.Chtimes(blobName, now, now)
 			return nil, "", types.ErrBlobExists
 		}
 	}
